@@ -87,6 +87,8 @@ RECURSIVE PyEq(_, _)
 PyEq(x, y) ==
   IF x.k = "atom" /\ y.k = "atom"
   THEN IF Numeric(x) /\ Numeric(y) THEN x.v = y.v ELSE x = y
+  ELSE IF x.k = "cont" /\ y.k = "cont" /\ x.cls = y.cls /\ x.cls \in {"tuple", "list"}
+  THEN Len(x.items) = Len(y.items) /\ \A i \in DOMAIN x.items : PyEq(x.items[i], y.items[i])
   ELSE x = y
 
 \* isinstance(x, c) for a concrete class or an ABC / origin name c
